@@ -149,4 +149,20 @@ def compare_restart(problem, cfg, blob, x_ref, maxiter, pseed, stats, n_pert=5, 
             stats["nj.vacuous_comparisons"] += 1
             return "vacuous", info, act
         return "ok", info, act
+    # DESIGN 7.4: at the floating-point resolution of the objective (the reference iteration gained
+    # a few ulps of f at most) whether a trial counts as "strictly lower" is decided by the last bit
+    try:
+        f_ck = float(pickle.loads(blob).fun)
+        f_ref = None if ref_act is None or ref_act.result is None else float(ref_act.result.fun)
+        f_res = float(act.result.fun)
+        def at_resolution(fa):
+            return fa is not None and np.isfinite(fa) and np.isfinite(f_ck) and abs(fa - f_ck) <= 16 * EPS * max(abs(f_ck), abs(fa))
+
+        # both the uninterrupted iteration and the restarted one gain a few ulps of f at most
+        if at_resolution(f_ref) and at_resolution(f_res):
+            stats["nj.objective_resolution"] += 1
+            info["reason"] = "the iteration changes f by a few ulps at most in both runs"
+            return "vacuous", info, act
+    except Exception:  # noqa: BLE001
+        pass
     return "fail", info, act
